@@ -46,6 +46,23 @@ func addC10Ops(l *OpLib) {
 	}
 	llpSL("llp_open_t2_x5_big_sl3", "t2", "5", 3e11, "0.97")
 	llpSL("llp_open_t3_x3_sl15", "t3", "3", 1e9, "0.85")
+	// consolidating re-opens at leverage EXACTLY 1 (they borrow nothing) with a collateral too small to
+	// matter — alone, and in the block that first feeds a lower price (the position is unhealthy when the
+	// owner's message runs, before any sweep has seen it)
+	for _, pr := range []string{"", "2", "1"} {
+		pr := pr
+		name := "llp_topup_lev1_t1"
+		cost := 0
+		if pr != "" {
+			name, cost = name+"_at_"+pr, 1
+		}
+		l.Add(name, "llp_open", cost, func(w *World, p *BlockPlan) {
+			if pr != "" {
+				p.SetAtom = pr
+			}
+			p.Txs = one("t1", llpOpen(w.A("t1"), "1", 1000000, "0"))
+		})
+	}
 	l.Add("perp_open_long_t1_stoploss", "perp_open", 0, func(w *World, p *BlockPlan) {
 		m := perpOpen(w.A("t1"), perptypes.Position_LONG, "2", C("uusdc", 1e9), mulDecStr(w.Env.Atom, "1.6")).(*perptypes.MsgOpen)
 		m.StopLossPrice = Dec(mulDecStr(w.Env.Atom, "0.9"))
